@@ -15,6 +15,9 @@ Driver for C16.
   c16 sig <name|posonly|pos|defaults|varargs|kwonly|kwdefaults|varkw> <pos|kw>
    -> ok <ok|NameError> <source h:hex> <bind original> <bind wrapper> <call through wrapper>
       a binding is `E` (TypeError) or `args|varargs|kw`
+
+  c16 deco <function|instance|partial|builtin|boundmethod|class|staticmethod>
+   -> ok <ok|AttributeError|TypeError>
 -/
 namespace PromVerif.Drv.C16
 open PromVerif PromVerif.Wire PromVerif.Model.Wrappers PromVerif.Spec.Wrappers
@@ -173,9 +176,29 @@ def runSig (spec call : String) : String :=
     | .ok w => s!"ok ok {encText (sourceStr s)} {encBind (bind s ca)} {encBind (bind w ca)} {encBind (callThrough s ca)}"
   | _, _ => "err bad-field"
 
+def kindOf : String → Option CallableKind
+  | "function" => some .function | "instance" => some .callableInstance | "partial" => some .partialObject
+  | "builtin" => some .builtin | "boundmethod" => some .boundMethod | "class" => some .cls
+  | "staticmethod" => some .staticmethodObject | _ => none
+
+/-- `c16 deco <kind>` -> what decorating a callable of that kind (taking one positional parameter) gives -/
+def runDeco (kind : String) : String :=
+  let s : ArgSpec := { name := "f".toList, posonly := [], pos := ["x".toList], defaults := [], varargs := none, kwonly := [],
+                       kwdefaults := [], varkw := none, annotations := [], doc := none, qualname := "f".toList, module := [],
+                       dict := [], wrapped := none, fid := 1 }
+  match kindOf kind with
+  | none => "err bad-field"
+  | some k =>
+    match decorateCallable k s with
+    | .ok _ => "ok ok"
+    | .error .nameError => "ok NameError"
+    | .error .attributeError => "ok AttributeError"
+    | .error .typeError => "ok TypeError"
+
 def handle : List String → String
   | ["exec", tree, clock, gauges, nc, nobs] => runExec tree clock gauges nc nobs
   | ["sig", spec, call] => runSig spec call
+  | ["deco", kind] => runDeco kind
   | _ => "err bad-op"
 
 end PromVerif.Drv.C16
